@@ -3,6 +3,7 @@ package props
 import (
 	"encoding/base64"
 	"fmt"
+	"github.com/volatiletech/authboss/v3"
 	"strings"
 	"time"
 
@@ -261,6 +262,16 @@ func c01Scenarios(tier string) []engine.Scenario {
 			var a []engine.Action
 			for _, b := range bothBrowsers {
 				a = append(a, oauthActs(w, b, []string{"google"}, []string{"", "rm=true"}, []string{"c:7", "bad"})...)
+				// password logins naming the account the OAuth2 login created (it has no password: the stored value is empty)
+				if op := authboss.MakeOAuth2PID("google", "7"); w.DB.Users[op].PID != "" {
+					for _, c := range []cand{{"pw:empty", ""}, {"pw:anything", "Anyth1ng!"}} {
+						a = append(a, flows.A(fmt.Sprintf("login(%s,oauth-account,%s)", b, c.note), func(s *world.Stack, _ *world.World) world.Req {
+							r := flows.Login(s, b, op, c.val, false)
+							r.Tag.Note = c.note
+							return r
+						}, ""))
+					}
+				}
 				a = append(a, simple("logout("+b+")", func(s *world.Stack) world.Req { return flows.Logout(s, b) }))
 				a = append(a, flows.Restart(b))
 				a = append(a, simple("open("+b+")", func(s *world.Stack) world.Req { return flows.Open(b) }))
